@@ -118,6 +118,31 @@ fn run_r(chunks: &[&str]) -> String {
     out.join(" ")
 }
 
+// ---------------------------------------------------------------- T: TCP segments through one TLS analyzer instance
+/// PSH|ACK data segment of flow `f`: 10.3.x.y:(41000 + f % 20000) -> 93.184.218.1:443
+pub fn tls_seg_frame(f: u64, payload: &[u8]) -> Vec<u8> {
+    use hnv_common::pkt::*;
+    let mut t = Tcp::new(41000 + (f % 20000) as u16, 443, ACK | PSH);
+    t.seq = 5000; t.ack = 9000; t.payload = payload.to_vec();
+    ether4(&Ip4::new([10, 3, (f / 200 % 250) as u8, 1 + (f % 200) as u8], [93, 184, 218, 1]), &t)
+}
+fn run_t(segs: &[&str], pool: bool) -> String {
+    let frames: Vec<Vec<u8>> = segs.iter().map(|s| { let mut it = s.split(':'); let f: u64 = it.next().unwrap().parse().unwrap(); tls_seg_frame(f, &data(it.next().unwrap())) }).collect();
+    let mut a = Seq::new(Kind::Tls, db(), 1000);
+    let texts: Vec<String> = frames.iter().map(|f| a.packet(f, CLOCK)).collect();
+    let mut out = vec!["RET".to_string()];
+    for t in &texts { out.push(if t.is_empty() { "-".into() } else { "S".into() }); }
+    let mut s = out.join(" ");
+    if pool {
+        match pool_texts("pl1", &frames) {
+            Ok(mut got) => { let mut want: Vec<String> = texts.iter().filter(|t| !t.is_empty()).cloned().collect(); got.sort(); want.sort();
+                             if got != want { s.push_str(&format!("\t!pool: the one-worker TLS pool reports {} results for these segments, the sequential analyzer {}", got.len(), want.len())); } }
+            Err(e) => s.push_str(&format!("\t!pool: {}", e)),
+        }
+    }
+    s
+}
+
 // ---------------------------------------------------------------- F / S: HTTP/2 frame splitter and payload parsers
 fn ftype_num(t: &huginn_net_http::Http2FrameType) -> u8 {
     use huginn_net_http::Http2FrameType::*;
@@ -310,7 +335,7 @@ fn pool_texts(entry: &str, frames: &[Vec<u8>]) -> Result<Vec<String>, String> {
         }
         _ => {
             let (tx, rx) = mpsc::channel();
-            let pool = huginn_net_tls::WorkerPool::new(2, 4096, 1, 1, tx, 1000, Some(pass_all_filter!(huginn_net_tls))).map_err(|e| e.to_string())?;
+            let pool = huginn_net_tls::WorkerPool::new(if entry == "pl1" { 1 } else { 2 }, 4096, 1, 1, tx, 1000, Some(pass_all_filter!(huginn_net_tls))).map_err(|e| e.to_string())?;
             // the TLS dispatcher answers Dropped for frames from which no flow can be read: that is a return value, not a refusal
             for f in frames.iter() { let _ = pool.dispatch(f.clone()); }
             let r = collect(&rx, &|| pool.stats().workers.iter().all(|w| w.queue_size == 0), &|x| tls_text(x));
@@ -362,7 +387,7 @@ fn history(entry: &str, junk: &[Vec<u8>], probe: &[Vec<u8>]) -> String {
                 out.push_str(&format!("\t!poisoned: after the history probe {} parses to {:?}, on a fresh instance to {:?}", i, got[i].chars().take(160).collect::<String>(), want[i].chars().take(160).collect::<String>()));
             }
         }
-        "pt" | "pl" | "ph" => {
+        "pt" | "pl" | "pl1" | "ph" => {
             let all: Vec<Vec<u8>> = junk.iter().chain(probe.iter()).cloned().collect();
             let hist = match pool_texts(entry, &all) { Ok(r) => r, Err(e) => { out.push_str(&format!("\t!pool: {}", e)); return out; } };
             let fresh = match pool_texts(entry, probe) { Ok(r) => r, Err(e) => { out.push_str(&format!("\t!pool (fresh): {}", e)); return out; } };
@@ -392,6 +417,8 @@ fn run_inner(line: &str) -> String {
             format!("RET {}", huginn_net_tcp::ip_options::IpOptions::calculate_ipv6_length(&p))
         }
         "R" => run_r(&toks[1..]),
+        "T" => run_t(&toks[1..], false),
+        "TP" => run_t(&toks[1..], true),
         "K" => {
             let mut x = huginn_net_http::Http2FingerprintExtractor::new();
             let mut out = vec!["RET".to_string()];
